@@ -80,6 +80,8 @@ inductive Stmt where
   | thr (e : Expr)
   | brk (l : Label)
   | cont (l : Label)
+  | blk (x : Nat) (init : Val) (body : List Stmt)   -- { let s = init; …closures capturing s…; body }: a block scope whose
+                                                    -- binding (slot x, a fresh one per nesting depth: shadowing) lives in its own scope object
 deriving Repr, Inhabited
 
 inductive Completion where
@@ -113,6 +115,7 @@ inductive Frame where
   | forOfK (l : Label) (x : Nat) (it : IterState) (body : List Stmt)
   | forArrK (l : Label) (x : Nat) (rest : List Val) (body : List Stmt)
   | letArrK (x : Nat) (vals : List Val) (targets : List (Nat × Option Expr))
+  | blkK                                            -- a block scope is open (lexical scope marker; transparent)
 deriving Repr, Inhabited
 
 inductive Ctl where
@@ -421,6 +424,7 @@ def step (c : Conf) : StepOut :=
       | .thr e => .cont { c with ctl := .evalE e, k := .thrK :: k1 } []
       | .brk l => .cont { c with ctl := .abrupt (.brk l), k := k1 } []
       | .cont l => .cont { c with ctl := .abrupt (.cont l), k := k1 } []
+      | .blk x v body => .cont { ctl := .exec body, env := env.set x v, k := .blkK :: k1 } []
   | .val v =>
     match k with
     | [] => .finished (.d .undef) []
@@ -464,6 +468,7 @@ def step (c : Conf) : StepOut :=
       | .forOfK l x it body => .cont { c with ctl := .forOfGo l x it body, k := k' } []
       | .forArrK l x rest body => .cont { c with ctl := .forArrGo l x rest body, k := k' } []
       | .letArrK x vals ts => .cont { ctl := .letArrGo vals ts, env := env.set x v, k := k' } []
+      | .blkK => .cont { c with ctl := .val v, k := k' } []
   | .abrupt cp => stepAbrupt c cp
 
 inductive RunOut where
@@ -521,7 +526,7 @@ def genCall (fuel : Nat) (g : GState) (cmd : Cmd) : List Event × Result × GSta
       | .finished r ev => (ev, r, .completed)
     | _ => ([], .t .terr, g)
 
-def numVars : Nat := 6
+def numVars : Nat := 10
 
 def GState.init (body : List Stmt) : GState :=
   .start { ctl := .exec body, env := List.replicate numVars .undef, k := [] }
